@@ -13,37 +13,35 @@ Proof. split; vm_compute; reflexivity. Qed.
 Print Assumptions C19_locales_wellformed.
 
 (* COMPLETENESS, for ALL texts and every well-formed locale: whatever the grammar of the statement
-   accepts is recognised by the code, with the same digits, exponent, grouping and kind
-   (agrees_core), and with the same sign unless the text is "-cur" + a number with an exponent (F06).
+   accepts and a cell can hold (magnitude below the binary64 overflow threshold, exact integer
+   comparison) is recognised by the code with the same sign, digits, exponent, grouping and kind.
    Premise on dates: a text without % and currency symbol is offered to the date recogniser first. *)
-Theorem C19_complete_partial :
+Theorem C19_complete :
   forall L t d,
   wf_seps (l_dec L) (l_grp L) = true ->
-  spec_recognise L t = Some d ->
+  spec_stored L t = Some d ->
   (s_affix d = ANone -> parse_date L t = None) ->
-  exists r, parse_formatted_number L t = Some r /\ agrees_core r d = true /\
-            (negcur_exponent L t = false -> agrees_sign r d = true).
+  exists r, parse_formatted_number L t = Some r /\ agrees r d = true.
 Proof. exact complete. Qed.
-Print Assumptions C19_complete_partial.
+Print Assumptions C19_complete.
 
 Example C19_complete_nonvacuous :
-  exists d, spec_recognise loc_de [32; 45; 49; 46; 50; 51; 52; 44; 53; 101; 45; 50; 32; 8364] = Some d /\
+  exists d, spec_stored loc_de [32; 45; 49; 46; 50; 51; 52; 44; 53; 101; 45; 50; 32; 8364] = Some d /\
             s_neg d = true /\ s_int d = [49; 50; 51; 52] /\ s_frac d = [53] /\ s_exp d = -2 /\
             s_grouped d = true /\ s_affix d = ACurrency [8364] false.
 Proof. eexists. vm_compute. repeat split. Qed.
 
 (* SOUNDNESS, for ALL texts and every well-formed locale: whatever the code recognises as a number
-   (not as a date) is accepted by the grammar with the same sign, digits, exponent, grouping and
-   kind — outside the three known defect classes, which are predicates on the input text:
-   double_sign (F07 "-cur" + signed number), ill_grouped (F07 misplaced group separators),
-   negcur_exponent (F06 "-cur" + number with an exponent). *)
+   (not as a date) is accepted by the grammar, representable, and has the same sign, digits,
+   exponent, grouping and kind - outside the two known defect classes, which are predicates on the
+   input text: double_sign (F07 "-cur" + signed number), ill_grouped (F07 misplaced group separators). *)
 Theorem C19_sound_partial :
   forall L t r,
   wf_seps (l_dec L) (l_grp L) = true ->
   parse_formatted_number L t = Some r ->
   r_kind r <> KDate ->
   known_class L t = None ->
-  exists d, spec_recognise L t = Some d /\ agrees r d = true.
+  exists d, spec_stored L t = Some d /\ agrees r d = true.
 Proof. exact sound. Qed.
 Print Assumptions C19_sound_partial.
 
@@ -58,12 +56,11 @@ Theorem C19_kind :
 Proof. exact kind_format. Qed.
 Print Assumptions C19_kind.
 
-(* F06: "-$1e3" is accepted by the grammar as -1000 and stored with the sign dropped *)
-Theorem C19_refuted_sign :
-  exists t d r, spec_recognise loc_en t = Some d /\ parse_formatted_number loc_en t = Some r /\
-                agrees_core r d = true /\ s_neg d = true /\ agrees_sign r d = false.
-Proof. exists [45; 36; 49; 101; 51]. eexists. eexists. vm_compute. repeat split. Qed.
-Print Assumptions C19_refuted_sign.
+(* F06 (repaired in /repo, 6761320): "-$1e3" is -1000 - in the grammar and in the code *)
+Example C19_negcur_exponent_sign :
+  exists d r, spec_stored loc_en [45; 36; 49; 101; 51] = Some d /\
+              parse_formatted_number loc_en [45; 36; 49; 101; 51] = Some r /\ s_neg d = true /\ agrees r d = true.
+Proof. eexists. eexists. vm_compute. repeat split. Qed.
 
 (* F07: misplaced group separators are recognised although the grammar rejects them *)
 Definition recognised_number (L : locale) (t : text) : bool :=
@@ -85,10 +82,29 @@ Theorem C19_refuted_double_sign :
 Proof. exists [45; 36; 45; 53]. eexists. eexists. vm_compute. repeat split. Qed.
 Print Assumptions C19_refuted_double_sign.
 
-(* F08: "1e999" is recognised; the number it denotes exceeds the largest finite binary64 *)
-Theorem C19_refuted_finite :
-  exists t r p, parse_formatted_number loc_en t = Some r /\ r_value r = VNum p false false /\
-                p_int p = [49] /\ p_frac p = [] /\ exp_value (p_exp p) = 999 /\
-                (2 ^ 53 - 1) * 2 ^ 971 < 1 * 10 ^ 999.
-Proof. exists [49; 101; 57; 57; 57]. eexists. eexists. vm_compute. repeat split. Qed.
-Print Assumptions C19_refuted_finite.
+(* F08 (repaired in /repo, 6e3cec0): every recognised value is finite. For a number, the exact
+   magnitude  digits * 10^(exponent - #fraction digits)  is below 2^1024 - 2^970, the first value a
+   correctly rounded conversion turns into infinity (integer comparison, no float); serials are integers. *)
+Theorem C19_finite :
+  forall L t r, parse_formatted_number L t = Some r -> value_finite (r_value r) = true.
+Proof. exact recognised_finite. Qed.
+Print Assumptions C19_finite.
+
+Theorem C19_finite_meaning :
+  forall ints frac ex,
+  all_digits (ints ++ frac) = true -> dec_overflows ints frac ex = false ->
+  let m := dec_val 0 (ints ++ frac) in
+  let e := ex - len frac in
+  (0 <= e -> m * 10 ^ e < f64_overflow_threshold) /\
+  (e < 0 -> m < f64_overflow_threshold * 10 ^ (- e)).
+Proof. exact dec_overflows_meaning. Qed.
+Print Assumptions C19_finite_meaning.
+
+(* the boundary itself: "1e999" and the 309-digit numeral 2^1024 - 2^970 are not recognised, the numeral
+   just below it is *)
+Example C19_finite_boundary :
+  parse_formatted_number loc_en [49; 101; 57; 57; 57] = None /\
+  parse_formatted_number loc_en (dec_of_Z (2 ^ 1024 - 2 ^ 970)) = None /\
+  (exists r, parse_formatted_number loc_en (dec_of_Z (2 ^ 1024 - 2 ^ 970 - 1)) = Some r) /\
+  f64_overflow_threshold = 2 ^ 1024 - 2 ^ 970.
+Proof. split; [vm_compute; reflexivity|]. split; [vm_compute; reflexivity|]. split; [eexists; vm_compute; reflexivity | reflexivity]. Qed.
